@@ -170,6 +170,18 @@ Theorem C17_body_complete_auth :
 Proof. exact auth_do_bodies. Qed.
 Print Assumptions C17_body_complete_auth.
 
+(* the statuses on which the re-send logic branches, as read from the sources (StatusCode
+   comparisons of auth.Client.Do, fetch*Token, blobStore.Push / completePushAfterInitialPost /
+   Mount, manifestStore.push, in source order): challenge 401, token 200, upload session 202,
+   created 201 *)
+Theorem C17_status_constants :
+  challenge_status = 401 /\ challenge_status_2 = 401 /\ token_ok_status = 200 /\ accepted_status = 202 /\
+  fetch_oauth2_status_cmps = fetch_distribution_status_cmps /\
+  blob_put_status_cmps = [(1, 201)] /\ manifest_push_status_cmps = [(1, 201)] /\
+  blob_mount_status_cmps = [(0, 201); (1, 202)].
+Proof. exact status_constants. Qed.
+Print Assumptions C17_status_constants.
+
 (* --- the token request of a Bearer challenge, inside the model ------------------------- *)
 
 (* auth.Client.Do with the token request spelled out (fetchDistributionToken: GET without body;
